@@ -121,7 +121,14 @@ func drive(id, tier string) int {
 	if e, ok := p.(props.WithExtra); ok {
 		cfg.Extra = e.Extra
 	}
-	if m.MaxWorkers == 1 {
+	cfg.Race = m.Race
+	if m.Race && !core.RaceEnabled {
+		fmt.Fprintln(os.Stderr, "property "+id+" needs the -race build of vcheck (./check builds it)")
+		return 2
+	}
+	if m.Race {
+		cfg.Env = append(cfg.Env, "GOMAXPROCS="+strconv.Itoa(runtime.NumCPU()))
+	} else if m.MaxWorkers == 1 {
 		cfg.Env = append(cfg.Env, "GOMAXPROCS="+strconv.Itoa(runtime.NumCPU()))
 	} else {
 		cfg.Env = append(cfg.Env, "GOMAXPROCS=2", "GOMEMLIMIT=3GiB", "GOGC=200")
